@@ -206,6 +206,27 @@ def build_lib(flags=None, exclude=(), tag="asan"):
     return True, objs, ""
 
 
+LOOP_WRAPS = ["clock_gettime", "syscall", "pipe", "timerfd_create", "timerfd_settime", "epoll_ctl", "read",
+              "epoll_pwait2", "epoll_wait", "ppoll", "poll"]
+
+
+def build_wrapped(out, harness_src, wraps, flags=None, tag="asan", extra=()):
+    """library objects from REPO, partially linked with --wrap so only library references are redirected, + harness"""
+    flags = list(SAN if flags is None else flags)
+    ok, objs, log = build_lib(flags, tag=tag)
+    if not ok:
+        return False, log
+    d = os.path.dirname(objs[0])
+    wl = os.path.join(d, "wrapped-" + hashlib.sha1(" ".join(wraps).encode()).hexdigest()[:8] + ".o")
+    with Lock("lib-" + tag):
+        if not os.path.exists(wl):
+            r = sh(["ld", "-r"] + [f"--wrap={w}" for w in wraps] + ["-o", wl] + objs)
+            if r.returncode != 0:
+                return False, r.stdout
+    r = sh(["gcc"] + flags + CFLAGS_COMMON + list(extra) + ["-o", out, harness_src, wl, "-lpthread"])
+    return r.returncode == 0, r.stdout
+
+
 def write_case(prop, name, lines, tier, seed, ext="ops"):
     d = os.path.join(OUT, prop)
     os.makedirs(d, exist_ok=True)
